@@ -5,6 +5,9 @@ CONSTANTS
   SortBeforeFill = TRUE
   OutsideRule = "zero"
   BoundsRule = "given"
+  Layouts = {"k"}
+  KField = "second"
+  HeadFrom = "start"
   QTemps = {200, 250, 300, 400, 700, 1000}
   Export = TRUE
 INVARIANT HTypeOK
@@ -12,5 +15,6 @@ INVARIANT ReaderMatchesTable
 INVARIANT GivenKept
 INVARIANT RowsConvex
 INVARIANT HFits
+INVARIANT EveryLayoutRead
 CHECK_DEADLOCK FALSE
 CONSTRAINT HEmit
